@@ -17,7 +17,7 @@ ASSUMPTIONS = ['a run(until=event) stop is only placed on events that succeed in
                'programs in which an exception escapes step() are split with step() only',
                'canonical trace = all recorded observations and processings, minus the stop sentinels, minus action '
                'and step numbers']
-PROBES = ['network_scenario', 'pipeline_scenario', 'stop_at_instant_with_due_normal_event', 'until_event_gains_waiter_after_run_began',
+PROBES = ['big_int_clock', 'network_scenario', 'pipeline_scenario', 'stop_at_instant_with_due_normal_event', 'until_event_gains_waiter_after_run_began',
           'until_event_already_processed', 'nasty_stop_time', 'illegal_stop_refused', 'step_split', 'until_event_stop']
 
 
@@ -184,18 +184,23 @@ def gen(rng, tier):
     w['fire'] = rng.choice([0, 1])
     w['addcb'] = rng.choice([0, 1])
     prof.handlers = rng.choice([['cont', 'rewait', 'ret', 'other'], ['cont', 'cont', 'rewait', 'other', 'raise', 'none']])
+    big_int_clock = rng.random() < 0.08
+    if big_int_clock:
+        prof.pool = 'INTS'           # an integer clock far above 2**53 (e.g. nanoseconds since the epoch)
     case = gen_program(rng, prof)
+    if big_int_clock:
+        case['t0'] = rng.choice([1700000000000000000, 2 ** 60 + 1, 2 ** 53 + 1]) + rng.randint(0, 999)
     # reference run at generation time only to learn which instants / events exist; the plan is explicit data
     ref = setup_world(case)
     drive(ref, [['run']], max_steps=3000)
-    dues = sorted(set(float(r[8]) for r in ref.env.log if r[0] == 'T'))
+    dues = sorted(set((r[8] if big_int_clock else float(r[8])) for r in ref.env.log if r[0] == 'T'))
     ok_events = [r[2] for r in ref.env.log if r[0] == 'P' and r[5] is True and
                  (r[2] in ref.shared or r[2] in ref.procs or r[2] in ref.named)]
     never = [lb for lb in list(ref.shared) if lb not in set(r[2] for r in ref.env.log if r[0] == 'P')]
     plan = []
     t0 = case['t0']
     cand = [d for d in dues if d > t0]
-    mids = [(a + b) / 2 for a, b in zip([t0] + cand, cand) if a < b]
+    mids = [] if big_int_clock else [(a + b) / 2 for a, b in zip([t0] + cand, cand) if a < b]
     nstops = rng.choice([1, 2, 3, 5, 8])
     stops = []
     for _ in range(nstops):
@@ -334,6 +339,8 @@ def check_split(w, case, ref_log):
                 elif out == 'exc':
                     if not (isinstance(val, tuple) and val[1] == 'RuntimeError' and lb not in processed):
                         viol.append(('C03.3', 'run(until=%s) raised %r' % (lb, val)))
+    if isinstance(case.get('t0'), int) and case.get('t0', 0) > 2 ** 53:
+        stats['big_int_clock'] = 1
     for it in case.get('drive', []):
         if it[0] == 'steps':
             stats['step_split'] = 1
